@@ -17,6 +17,7 @@
 #include "engine/bsx.hpp"
 #include "engine/env.hpp"
 #include "ref/ref_utfstream.hpp"
+#include "ref/ref_utf.hpp"
 #include "bitserializer/conversion_detail/convert_utf.h"
 #include "models/lib.hpp"
 #include "bitserializer/csv_archive.h"
@@ -476,6 +477,61 @@ static void writerLiteral(int enc, bool bomOn, const TSrc (&lit)[3], Collect& co
 	else col.o("ok:literal");
 }
 
+
+// ---- writer given ill-formed source text -------------------------------------------------------------------------
+// Source strings are all unit strings of length <= 3 over a per-width alphabet with ill-formed units (lone surrogates,
+// surrogate / out-of-range code points, lone lead and tail octets). Whatever the source, what reaches the stream must be
+// well-formed in the configured encoding: under ThrowError an ill-formed source makes Write report an error, under Skip the
+// well-formed characters are kept in order and every run of ill-formed units becomes 1..run-length error marks.
+template <class TSrc> struct IllAlpha;
+template <> struct IllAlpha<char> { static constexpr unsigned u[4] = {0x61, 0xC3, 0xA9, 0xE2}; };
+template <> struct IllAlpha<char16_t> { static constexpr unsigned u[4] = {0x61, 0x20AC, 0xD83D, 0xDE00}; };
+template <> struct IllAlpha<char32_t> { static constexpr unsigned u[4] = {0x61, 0x1F600, 0xD800, 0x110000}; };
+template <> struct IllAlpha<wchar_t> { static constexpr unsigned u[4] = {0x61, 0x1F600, 0xDC00, 0x110000}; };
+template <class TSrc>
+static void writerIllFormed(int enc, bool bomOn, int pol, Collect& col, std::string& sampleOut) {
+	using Str = std::basic_string<TSrc>;
+	const std::string bom = bomOn ? refus::bom(enc) : std::string();
+	for (int len = 1; len <= 3; ++len) {
+		int total = 1; for (int i = 0; i < len; ++i) total *= 4;
+		for (int wsel = 0; wsel < total; ++wsel) {
+			Str w; int x = wsel; std::string desc;
+			for (int i = 0; i < len; ++i) { unsigned u = IllAlpha<TSrc>::u[x % 4]; x /= 4; w.push_back(static_cast<TSrc>(u)); desc += bsx::fmt("%X ", u); }
+			uint32_t in[4]; for (size_t i = 0; i < w.size(); ++i) in[i] = static_cast<uint32_t>(static_cast<std::make_unsigned_t<TSrc>>(w[i]));
+			ref::utf::Nfa nfa(in, w.size(), static_cast<int>(sizeof(TSrc))); const bool anyIll = !nfa.allValid();
+			bool incompleteTail = false; for (size_t i = 0; i < w.size(); ++i) incompleteTail = incompleteTail || nfa.incompleteAt(i);
+			std::ostringstream os; ++col.evals; ++col.trans;
+			const char* cls = anyIll ? nfa.classAt(nfa.firstIll) : "wellformed_source";   // named class of the first ill-formed position
+			auto det = [&](const std::string& msg) { return [&, msg] { return msg + ": source units=" + desc + "written=" + bsx::hex(os.str().substr(0, 48)); }; };
+			try {
+				U::CEncodedStreamWriter wr(os, static_cast<U::UtfType>(enc), bomOn, pol ? U::UtfEncodingErrorPolicy::ThrowError : U::UtfEncodingErrorPolicy::Skip);
+				U::UtfEncodingErrorCode rc = wr.Write(std::basic_string_view<TSrc>(w.data(), w.size()));
+				std::string got = os.str();
+				if (got.compare(0, bom.size(), bom) != 0) { col.o("bom_missing"); col.v("/illformed_source", "", cls, "bom_missing", det("the configured BOM is not at the start")); continue; }
+				refus::Decoded d = refus::decode(got.substr(bom.size()), enc);
+				if (d.tail != refus::TailNone) { col.o("illformed_output"); col.v("/illformed_source", "", cls, "illformed_output", det("what was written is not well-formed in the configured encoding (return code " + std::to_string(static_cast<int>(rc)) + ")")); continue; }
+				std::vector<uint32_t> outU(d.text.begin(), d.text.end()); const uint32_t mark = 0x2610;
+				if (pol && anyIll) {
+					if (rc == U::UtfEncodingErrorCode::Success) { col.o("error_not_reported"); col.v("/illformed_source", "", cls, "error_not_reported", det("ThrowError policy, ill-formed source, but Write returned Success")); continue; }
+					col.o("ok:error_reported"); continue;
+				}
+				if (rc == U::UtfEncodingErrorCode::UnexpectedEnd && incompleteTail) {
+					// the source ends inside a sequence: "unexpected end" is the documented answer of the transcoders (C12); what was written so far must be derivable
+					bool okPrefix = outU.empty(); for (size_t st = 0; st < w.size() && !okPrefix; ++st) okPrefix = nfa.incompleteAt(st) && nfa.match(outU.data(), outU.size(), 4, &mark, 1, st, SIZE_MAX);
+					if (!okPrefix) { col.o("wrong_text"); col.v("/illformed_source", "", cls, "wrong_text_before_unexpected_end", det("text written before the reported unexpected end is not derivable from the source")); continue; }
+					col.o("ok:unexpected_end"); continue;
+				}
+				if (rc != U::UtfEncodingErrorCode::Success) { col.o("write_error"); col.v("/illformed_source", "", cls, "unexpected_error_code", det("Write returned error code " + std::to_string(static_cast<int>(rc)))); continue; }
+				if (!nfa.match(outU.data(), outU.size(), 4, &mark, 1, w.size(), SIZE_MAX)) { col.o("wrong_text"); col.v("/illformed_source", "", cls, "wrong_text", det("decoded output is not derivable (well-formed characters in order, one mark per ill-formed sequence of 1..declared-length units)")); continue; }
+				col.o(anyIll ? "ok:marks" : "ok:exact");
+				if (anyIll && sampleOut.empty()) sampleOut = "source units " + desc + "-> " + bsx::hex(got);
+			}
+			catch (const bsx::SkipSubtree&) { throw; }
+			catch (const std::exception& e) { col.o("exception"); col.v("/illformed_source", "", cls, "exception", det("threw " + bsx::demangle(typeid(e).name()) + ": " + e.what())); }
+		}
+	}
+}
+
 static void scenWriter(bsx::Ctx& c) {
 	int enc = c.choose(5, "enc"), bomOn = c.choose(2, "bom"), src = c.choose(4, "srcwidth"), pol = c.choose(2, "policy");
 	// text groups: 0 = short texts, then a^p X a^q for p in {1, 40} x q in {0, 1}
@@ -493,6 +549,13 @@ static void scenWriter(bsx::Ctx& c) {
 		else if (src == 2) writerLiteral<char32_t>(enc, bomOn != 0, U"az", col);
 		else writerLiteral<wchar_t>(enc, bomOn != 0, L"az", col);
 		col.flush(c, sb); return;
+	}
+	if (lo.m == 0 && x.empty() && !kLen3Only) {
+		// the empty short text stands for the ill-formed-source block (all unit strings of length <= 3 over the per-width alphabet)
+		c.describe(sb, "ill-formed source units"); std::string smp;
+		if (src == 0) writerIllFormed<char>(enc, bomOn != 0, pol, col, smp); else if (src == 1) writerIllFormed<char16_t>(enc, bomOn != 0, pol, col, smp);
+		else if (src == 2) writerIllFormed<char32_t>(enc, bomOn != 0, pol, col, smp); else writerIllFormed<wchar_t>(enc, bomOn != 0, pol, col, smp);
+		c.nontrivial(bsx::fnv(sb + "/illformed")); if (enc == 1 && src == 2 && !pol && !smp.empty()) c.sample(sb + " " + smp);
 	}
 	Case cs = makeCase(enc, bomOn != 0, lo, x);
 	c.describe(sb, "text=" + cs.desc + "; one Write call and every split into two calls");
